@@ -211,6 +211,7 @@ def run_case(spec):
             before = list(cur.geoshapes)
             cur_obs = [w.obs(x) for x in before]
             news_lit = '[]'
+            hd_lit = 'None'
             exp = None          # expected ids by the property
             if kind == 'add':
                 extra = []
@@ -262,6 +263,12 @@ def run_case(spec):
                     if ee is not None:
                         exp = ('Ok', [o[0] for o, k in zip(cur_obs, ee) if k])
             elif kind == 'conv':
+                # has_duplicate_timestamps is a cached_property: read it on a fresh copy of the track
+                hd = Track(list(before)).has_duplicate_timestamps
+                keys = [(o[1], o[2]) for o in cur_obs]
+                if hd != (len(set(keys)) != len(keys)):
+                    fails.append(('convolve_spec', f'has_duplicate_timestamps={hd} on timestamps {keys}'))
+                hd_lit = f'(Some {blit(hd)})'
                 r = guarded(lambda: cur.convolve_duplicate_timestamps())
                 lit = 'OConvolve'
                 if r[0] == 'Ok':
@@ -331,7 +338,7 @@ def run_case(spec):
                 fails.append(({'slice': 'slice_spec', 'fij': 'fij_spec', 'add': 'ops_sorted/add', 'fdt': 'filter_by_dt',
                                'fiv': 'filter_by_dt', 'ftime': 'filter_by_time_spec'}.get(kind, kind),
                               f'{op}: implementation gives {rid}, the property demands {exp}'))
-            steps_lit.append(f'({lit}, {blit(adv)}, {res_ids_lit(rid)}, {news_lit})')
+            steps_lit.append(f'({lit}, {blit(adv)}, {res_ids_lit(rid)}, {news_lit}, {hd_lit})')
             meta['steps'].append({'op': op, 'result': rid})
             if adv and r[0] == 'Ok':
                 cur = r[1]
@@ -508,7 +515,7 @@ def main():
     # C. speed-limit sweeps
     for _ in range(120 if quick else 2500):
         items = gen_items(rng, rng.choice([2, 3, 4, 5, 6, 8, 12, 20, 30]))
-        lim = speed_limits(rng, items, 6)
+        lim = speed_limits(rng, items, 6 if len(items) > 5 else 100)
         specs.append(('fij-sweep', {'items': items, 'ops': [['fij', v, 0] for v in lim]}))
     # D. chains of up to 6 operations
     for _ in range(500 if quick else 12000):
@@ -520,6 +527,22 @@ def main():
     for _ in range(40 if quick else 400):
         items = gen_items(rng, rng.randint(1, 8), allow_nodt=True)
         specs.append(('nodt', {'items': items, 'ops': [['conv', 1]]}))
+    # F. fixed regression corpus: D18 (open slice must keep a long shape that starts early and
+    #    ends after the last-starting shape), duplicate timestamps with distinct ends, exact tie
+    HOUR = 3600 * SEC
+    p0, p1 = [0.0, 0.0], [0.001, 0.0]
+    d18 = [{'st': 0, 'en': 100 * HOUR, 'so': 'utc', 'eo': 'utc', 'pos': p0, 'kind': 'pt'},
+           {'st': HOUR, 'en': HOUR, 'so': 'utc', 'eo': 'utc', 'pos': p1, 'kind': 'pt'},
+           {'st': HOUR, 'en': 2 * HOUR, 'so': 'utc', 'eo': 'utc', 'pos': p1, 'kind': 'pt'},
+           {'st': HOUR, 'en': HOUR, 'so': 120, 'eo': 120, 'pos': p0, 'kind': 'inst'}]
+    tie = haversine_distance_meters(Coordinate(*p0), Coordinate(*p1)) / 3600.0
+    for perm in itertools.permutations(range(4)):
+        specs.append(('fixed', {'items': [d18[i] for i in perm],
+                                'ops': [['slice', 0, None, 'utc', 0], ['slice', None, None, 'utc', 0],
+                                        ['slice', HOUR, None, 'naive', 0], ['slice', None, 100 * HOUR, 'utc', 0],
+                                        ['slice', None, 100 * HOUR + 1, 'utc', 0], ['conv', 0],
+                                        ['fij', tie, 0], ['fij', math.nextafter(tie, 0), 0], ['fij', 0.0, 0],
+                                        ['conv', 1], ['fij', tie, 1], ['slice', 1, None, 'utc', 1]]}))
     specs.append(('empty', {'items': [], 'ops': [['slice', None, None, 'utc', 0], ['slice', 5, None, 'utc', 0],
                                                  ['slice', None, 5, 'utc', 0], ['slice', 0, 5, 'utc', 0],
                                                  ['fij', 1.0, 0], ['conv', 0], ['fdt', 0, 'utc', 0],
@@ -574,6 +597,20 @@ def main():
             rep['property_clauses_violated'] = [list(f) for f in failing[i][:10]]
         ck.violation(rep)
         reported += 1
+
+    # deviation from the property's text outside its 1..30 quantifier but reachable by chains: an
+    # omitted slice bound on an EMPTY track raises (IndexError / ValueError) instead of returning
+    # the empty track.  The model is faithful (C17_slice_empty, C17_slice_open_empty_refuted).
+    # Deterministic replay; reported as KNOWN-FINDING only if KNOWN_FINDINGS.json lists it.
+    one = Track([GeoPoint(Coordinate(0, 0), dt=to_dt(5, 'utc'))])
+    emptied = one[to_dt(10, 'utc'):to_dt(20, 'utc')]
+    dev = guarded(lambda: emptied[:])
+    ck.cov['open_slice_on_empty_track'] = {'reproduces': dev[0] == 'Err', 'observed': dev[1] if dev[0] == 'Err' else 'Ok',
+                                           'seen_in_generated_chains': sum(1 for m in meta for st in m['steps']
+                                                                           if st['op'][0] == 'slice' and st['result'][0] == 'Err')}
+    for f in ck.findings:
+        if f.get('status') == 'open' and f.get('signature') == 'open_slice_on_empty_track' and dev[0] == 'Err':
+            ck.known(f)
 
     ck.finish(rule='seeded multisets of 1..30 time-bounded shapes (instants, short and long early-starting intervals, '
                    'duplicate starts/timestamps, mixed time zones, points and boxes) in every input order for <= 5 items '
